@@ -1,5 +1,262 @@
-/- C04 — property theorems (to be written). -/
-import SoundeventModel.Basic
+/-
+  C04 — Relational schema invariants cannot be bypassed at construction.
+  Property theorems only (helper lemmas live in Proofs/Lemmas/Relational.lean).
+-/
+import SoundeventModel.Relational
+import Proofs.Lemmas.Relational
 namespace SE.Proofs.C04
+open SE SE.Relational SE.Proofs.Lemmas.Relational
+
+/-- the targets / sources a list of matches mentions -/
+abbrev targets (ms : List (Option Id × Option Id)) : List Id := ms.filterMap (·.2)
+abbrev sources (ms : List (Option Id × Option Id)) : List Id := ms.filterMap (·.1)
+
+/-! ### clip evaluations -/
+
+theorem C04_check_matches_iff (annIds predIds : List Id) (ms : List (Option Id × Option Id)) :
+    checkMatches annIds predIds ms = true ↔
+      (targets ms).Nodup ∧ (sources ms).Nodup ∧
+      (∀ x, x ∈ targets ms ↔ x ∈ annIds) ∧ (∀ x, x ∈ sources ms ↔ x ∈ predIds) := by
+  have ite_ft : ∀ (c : Prop) [Decidable c] (x : Bool), ((if c then false else x) = true) ↔ (¬ c ∧ x = true) := by
+    intro c _ x; by_cases h : c <;> simp [h]
+  have ht := toSet_length_eq_iff (targets ms)
+  have hs := toSet_length_eq_iff (sources ms)
+  have h3 : setEq (toSet (targets ms)) (toSet annIds) = true ↔ ∀ x, x ∈ targets ms ↔ x ∈ annIds := by
+    rw [setEq_iff]; simp only [mem_toSet]
+  have h4 : setEq (toSet (sources ms)) (toSet predIds) = true ↔ ∀ x, x ∈ sources ms ↔ x ∈ predIds := by
+    rw [setEq_iff]; simp only [mem_toSet]
+  unfold checkMatches
+  show (if ((targets ms).length != (toSet (targets ms)).length) = true then false
+        else if ((sources ms).length != (toSet (sources ms)).length) = true then false
+        else if (!setEq (toSet (targets ms)) (toSet annIds)) = true then false
+        else if (!setEq (toSet (sources ms)) (toSet predIds)) = true then false else true) = true ↔ _
+  rw [ite_ft, ite_ft, ite_ft, ite_ft]
+  rw [← ht, ← hs, ← h3, ← h4]
+  simp only [bne_iff_ne, ne_eq, Decidable.not_not, Bool.not_eq_true', Bool.not_eq_false, and_true]
+  constructor
+  · rintro ⟨a, b, c, d⟩; exact ⟨a.symm, b.symm, c, d⟩
+  · rintro ⟨a, b, c, d⟩; exact ⟨a.symm, b.symm, c, d⟩
+
+/-- accepted ⇔ same clip, no target and no source repeated, the targets are exactly the
+    annotated and the sources exactly the predicted sound events -/
+theorem C04_clip_eval_iff (annClip predClip : Id) (annIds predIds : List Id)
+    (ms : List (Option Id × Option Id)) :
+    clipEvalOk annClip predClip annIds predIds ms = true ↔
+      annClip = predClip ∧ (targets ms).Nodup ∧ (sources ms).Nodup ∧
+      (∀ x, x ∈ targets ms ↔ x ∈ annIds) ∧ (∀ x, x ∈ sources ms ↔ x ∈ predIds) := by
+  simp only [clipEvalOk, Bool.and_eq_true, C04_check_matches_iff, clipsMatch]
+  simp
+
+/-- the statement of the property: same clip, every annotated and every predicted sound event
+    is mentioned exactly once, and nothing foreign is mentioned -/
+theorem C04_clip_eval_exactly_once (annClip predClip : Id) (annIds predIds : List Id)
+    (ms : List (Option Id × Option Id)) :
+    clipEvalOk annClip predClip annIds predIds ms = true ↔
+      annClip = predClip ∧
+      (∀ a ∈ annIds, (targets ms).count a = 1) ∧ (∀ t ∈ targets ms, t ∈ annIds) ∧
+      (∀ p ∈ predIds, (sources ms).count p = 1) ∧ (∀ s ∈ sources ms, s ∈ predIds) := by
+  rw [C04_clip_eval_iff]
+  have h1 := @exactly_once_iff (targets ms) annIds
+  have h2 := @exactly_once_iff (sources ms) predIds
+  constructor
+  · rintro ⟨hc, n1, n2, m1, m2⟩
+    exact ⟨hc, (h1.mp ⟨n1, m1⟩).1, (h1.mp ⟨n1, m1⟩).2, (h2.mp ⟨n2, m2⟩).1, (h2.mp ⟨n2, m2⟩).2⟩
+  · rintro ⟨hc, a1, a2, b1, b2⟩
+    exact ⟨hc, (h1.mpr ⟨a1, a2⟩).1, (h2.mpr ⟨b1, b2⟩).1, (h1.mpr ⟨a1, a2⟩).2, (h2.mpr ⟨b1, b2⟩).2⟩
+
+/-! ### matches, projects, clips, scores -/
+
+theorem C04_unit_iff (x : Rat) : unitOk x = true ↔ 0 ≤ x ∧ x ≤ 1 := by
+  simp [unitOk]
+
+/-- a constraint row `ge=0, le=1` is the unit interval; any table the check extracts that passes
+    `unitTable` therefore constrains every listed field to [0, 1] -/
+theorem C04_unit_table (tbl : List FieldRow) (h : unitTable tbl = true) :
+    ∀ r ∈ tbl, ∀ x, r.c.ok x = unitOk x := by
+  intro r hr x
+  simp only [unitTable, List.all_eq_true, decide_eq_true_eq] at h
+  rw [h r hr]
+  simp [Constraint.ok, unitOk]
+
+theorem C04_match_iff (m : MatchRow) :
+    matchOk m = true ↔
+      (m.source.isSome ∨ m.target.isSome) ∧ (0 ≤ m.affinity ∧ m.affinity ≤ 1) ∧
+      (∀ s, m.score = some s → 0 ≤ s ∧ s ≤ 1) := by
+  obtain ⟨s, t, a, sc⟩ := m
+  cases s <;> cases t <;> cases sc <;> simp [matchOk, matchSidesOk, optUnitOk, unitOk]
+
+/-- a match has a source or a target -/
+theorem C04_match_null_null_rejected (a : Rat) (sc : Option Rat) : matchOk ⟨none, none, a, sc⟩ = false := by
+  simp [matchOk, matchSidesOk]
+
+theorem C04_project_iff (taskClips annClips : List Id) :
+    projectOk taskClips annClips = true ↔ ∀ c ∈ annClips, c ∈ taskClips := by
+  induction annClips with
+  | nil => simp [projectOk]
+  | cons c cs ih =>
+    by_cases h : c ∈ taskClips
+    · simp [projectOk, mem_toSet, h, ih]
+    · simp [projectOk, mem_toSet, h]
+
+/-- a clip never starts after it ends -/
+theorem C04_clip_iff (s e : Rat) : clipOk s e = true ↔ s ≤ e := by
+  simp [clipOk, Rat.not_lt]
+
+/-- a whole arrangement is accepted iff every match is well formed with numbers in [0,1], the
+    score (if any) is in [0,1], and the relational condition holds -/
+theorem C04_arrangement_iff (a : ClipEvalArr) :
+    a.accepted = true ↔
+      (∀ m ∈ a.ms, (m.source.isSome ∨ m.target.isSome) ∧ (0 ≤ m.affinity ∧ m.affinity ≤ 1) ∧
+                   (∀ s, m.score = some s → 0 ≤ s ∧ s ≤ 1)) ∧
+      (∀ s, a.score = some s → 0 ≤ s ∧ s ≤ 1) ∧
+      a.annClip = a.predClip ∧
+      (∀ x ∈ a.annIds, (targets a.pairs).count x = 1) ∧ (∀ t ∈ targets a.pairs, t ∈ a.annIds) ∧
+      (∀ p ∈ a.predIds, (sources a.pairs).count p = 1) ∧ (∀ s ∈ sources a.pairs, s ∈ a.predIds) := by
+  simp only [ClipEvalArr.accepted, Bool.and_eq_true, List.all_eq_true, C04_match_iff,
+    C04_clip_eval_exactly_once]
+  have : optUnitOk a.score = true ↔ ∀ s, a.score = some s → 0 ≤ s ∧ s ≤ 1 := by
+    cases a.score <;> simp [optUnitOk, unitOk]
+  rw [this]
+  constructor
+  · rintro ⟨⟨h1, h2⟩, h3⟩; exact ⟨h1, h2, h3⟩
+  · rintro ⟨h1, h2, h3⟩; exact ⟨⟨h1, h2⟩, h3⟩
+
+/-! ### the patterns the property lists -/
+
+/-- an empty clip (nothing annotated, nothing predicted) is accepted iff no match mentions
+    anything; as a `Match` needs a side, iff there are no matches at all -/
+theorem C04_empty_clip (c : Id) (ms : List (Option Id × Option Id))
+    (hsides : ∀ m ∈ ms, matchSidesOk m.1 m.2 = true) :
+    clipEvalOk c c [] [] ms = true ↔ ms = [] := by
+  rw [C04_clip_eval_iff]
+  constructor
+  · rintro ⟨_, _, _, ht, hs⟩
+    cases ms with
+    | nil => rfl
+    | cons m rest =>
+      exfalso
+      have hm := hsides m (List.mem_cons_self ..)
+      obtain ⟨s, t⟩ := m
+      cases s with
+      | some s => exact absurd ((hs s).mp (by simp [sources])) (by simp)
+      | none =>
+        cases t with
+        | some t => exact absurd ((ht t).mp (by simp [targets])) (by simp)
+        | none => simp [matchSidesOk] at hm
+  · rintro rfl; simp
+
+/-- nothing matched: one one-sided match per annotated and per predicted sound event -/
+theorem C04_all_unmatched_accepted (c : Id) (annIds predIds : List Id)
+    (ha : annIds.Nodup) (hp : predIds.Nodup) :
+    clipEvalOk c c annIds predIds
+      (annIds.map (fun a => (none, some a)) ++ predIds.map (fun p => (some p, none))) = true := by
+  rw [C04_clip_eval_iff]
+  have ht : targets (annIds.map (fun a => ((none : Option Id), some a)) ++
+      predIds.map (fun p => (some p, (none : Option Id)))) = annIds := by
+    simp [targets, List.filterMap_append, List.filterMap_map, Function.comp_def]
+  have hs : sources (annIds.map (fun a => ((none : Option Id), some a)) ++
+      predIds.map (fun p => (some p, (none : Option Id)))) = predIds := by
+    simp [sources, List.filterMap_append, List.filterMap_map, Function.comp_def]
+  rw [ht, hs]
+  exact ⟨rfl, ha, hp, fun _ => Iff.rfl, fun _ => Iff.rfl⟩
+
+/-- a perfect one-to-one pairing is accepted -/
+theorem C04_perfect_matching_accepted (c : Id) (annIds predIds : List Id)
+    (ha : annIds.Nodup) (hp : predIds.Nodup) (hlen : annIds.length = predIds.length) :
+    clipEvalOk c c annIds predIds ((predIds.zip annIds).map fun (p, a) => (some p, some a)) = true := by
+  rw [C04_clip_eval_iff]
+  have ht : targets ((predIds.zip annIds).map fun (p, a) => (some p, some a)) = annIds := by
+    simp only [targets, List.filterMap_map, Function.comp_def]
+    rw [show (fun x : Id × Id => (some x.2 : Option Id)) = some ∘ Prod.snd from rfl]
+    rw [← List.filterMap_map, List.map_snd_zip (by omega)]
+    simp
+  have hs : sources ((predIds.zip annIds).map fun (p, a) => (some p, some a)) = predIds := by
+    simp only [sources, List.filterMap_map, Function.comp_def]
+    rw [show (fun x : Id × Id => (some x.1 : Option Id)) = some ∘ Prod.fst from rfl]
+    rw [← List.filterMap_map, List.map_fst_zip (by omega)]
+    simp
+  rw [ht, hs]
+  exact ⟨rfl, ha, hp, fun _ => Iff.rfl, fun _ => Iff.rfl⟩
+
+/-- two matches for the same annotated sound event: rejected -/
+theorem C04_duplicate_target_rejected (ac pc : Id) (annIds predIds : List Id)
+    (pre mid post : List (Option Id × Option Id)) (s1 s2 : Option Id) (t : Id) :
+    clipEvalOk ac pc annIds predIds (pre ++ (s1, some t) :: mid ++ (s2, some t) :: post) = false := by
+  rw [Bool.eq_false_iff]; intro h
+  have hn := ((C04_clip_eval_iff ..).mp h).2.1
+  simp [targets, List.filterMap_append, List.nodup_append] at hn
+
+/-- two matches for the same predicted sound event: rejected -/
+theorem C04_duplicate_source_rejected (ac pc : Id) (annIds predIds : List Id)
+    (pre mid post : List (Option Id × Option Id)) (t1 t2 : Option Id) (s : Id) :
+    clipEvalOk ac pc annIds predIds (pre ++ (some s, t1) :: mid ++ (some s, t2) :: post) = false := by
+  rw [Bool.eq_false_iff]; intro h
+  have hn := ((C04_clip_eval_iff ..).mp h).2.2.1
+  simp [sources, List.filterMap_append, List.nodup_append] at hn
+
+/-- a match that mentions a sound event which is not annotated (resp. predicted) in this clip:
+    rejected, whatever the other side is -/
+theorem C04_foreign_rejected (ac pc : Id) (annIds predIds : List Id)
+    (ms : List (Option Id × Option Id)) (m : Option Id × Option Id) (hm : m ∈ ms)
+    (hf : (∃ t, m.2 = some t ∧ t ∉ annIds) ∨ (∃ s, m.1 = some s ∧ s ∉ predIds)) :
+    clipEvalOk ac pc annIds predIds ms = false := by
+  rw [Bool.eq_false_iff]; intro h
+  obtain ⟨_, _, _, ht, hs⟩ := (C04_clip_eval_iff ..).mp h
+  rcases hf with ⟨t, e, hno⟩ | ⟨s, e, hno⟩
+  · exact hno ((ht t).mp (List.mem_filterMap.mpr ⟨m, hm, e⟩))
+  · exact hno ((hs s).mp (List.mem_filterMap.mpr ⟨m, hm, e⟩))
+
+/-- an annotated or predicted sound event no match mentions: rejected -/
+theorem C04_missing_rejected (ac pc : Id) (annIds predIds : List Id)
+    (ms : List (Option Id × Option Id))
+    (hmiss : (∃ a ∈ annIds, ∀ m ∈ ms, m.2 ≠ some a) ∨ (∃ p ∈ predIds, ∀ m ∈ ms, m.1 ≠ some p)) :
+    clipEvalOk ac pc annIds predIds ms = false := by
+  rw [Bool.eq_false_iff]; intro h
+  obtain ⟨_, _, _, ht, hs⟩ := (C04_clip_eval_iff ..).mp h
+  rcases hmiss with ⟨a, ha, hno⟩ | ⟨p, hp, hno⟩
+  · obtain ⟨m, hm, e⟩ := List.mem_filterMap.mp ((ht a).mpr ha)
+    exact hno m hm e
+  · obtain ⟨m, hm, e⟩ := List.mem_filterMap.mp ((hs p).mpr hp)
+    exact hno m hm e
+
+/-- annotations and predictions of different clips: rejected, whatever the matches -/
+theorem C04_different_clips_rejected (ac pc : Id) (h : ac ≠ pc) (annIds predIds : List Id)
+    (ms : List (Option Id × Option Id)) : clipEvalOk ac pc annIds predIds ms = false := by
+  rw [Bool.eq_false_iff]; intro hh
+  exact h ((C04_clip_eval_iff ..).mp hh).1
+
+/-- the order of the matches, of the annotated and of the predicted sound events is irrelevant -/
+theorem C04_order_irrelevant (ac pc : Id) (annIds annIds' predIds predIds' : List Id)
+    (ms ms' : List (Option Id × Option Id))
+    (ha : annIds.Perm annIds') (hp : predIds.Perm predIds') (hm : ms.Perm ms') :
+    clipEvalOk ac pc annIds predIds ms = clipEvalOk ac pc annIds' predIds' ms' := by
+  have ht : (targets ms).Perm (targets ms') := hm.filterMap _
+  have hs : (sources ms).Perm (sources ms') := hm.filterMap _
+  rw [Bool.eq_iff_iff, C04_clip_eval_iff, C04_clip_eval_iff, ht.nodup_iff, hs.nodup_iff]
+  simp only [ht.mem_iff, hs.mem_iff, ha.mem_iff, hp.mem_iff]
+
+/-- an annotation that belongs to a clip without a task: the project is rejected -/
+theorem C04_project_outsider_rejected (taskClips annClips : List Id) (c : Id)
+    (hc : c ∈ annClips) (hno : c ∉ taskClips) : projectOk taskClips annClips = false := by
+  rw [Bool.eq_false_iff]; intro h
+  exact hno ((C04_project_iff ..).mp h c hc)
+
+theorem C04_project_no_annotations_accepted (taskClips : List Id) : projectOk taskClips [] = true := rfl
+
+/-! ### non-vacuity -/
+example : clipEvalOk "c" "c" ["a0", "a1"] ["p0"] [(some "p0", some "a0"), (none, some "a1")] = true := by decide
+example : clipEvalOk "c" "c" ["a0", "a1"] ["p0"] [(some "p0", some "a0")] = false := by decide
+example : clipEvalOk "c" "c" ["a0", "a1"] ["p0", "p1"] [(some "p0", some "a0"), (some "p1", some "a0")] = false := by decide
+example : clipEvalOk "c" "d" [] [] [] = false := by decide
+example : clipEvalOk "c" "c" [] [] [] = true := by decide
+example : clipEvalOk "c" "c" ["a0", "a0"] [] [(none, some "a0")] = true := by decide
+example : matchOk ⟨some "p", none, 1, some 0⟩ = true := by decide +kernel
+example : matchOk ⟨some "p", none, 1 + 1 / 4503599627370496, none⟩ = false := by decide +kernel
+example : matchOk ⟨some "p", some "a", 0, some (-1 / 4503599627370496)⟩ = false := by decide +kernel
+example : projectOk ["c0", "c1"] ["c1", "c1", "c0"] = true := by decide
+example : projectOk ["c0"] ["c0", "c1"] = false := by decide
+example : clipOk 1 1 = true ∧ clipOk (1 + 1 / 4503599627370496) 1 = false := by decide +kernel
+example : unitTable [⟨"Match", "affinity", { ge := some 0, le := some 1 }⟩] = true := by decide +kernel
+example : unitTable [⟨"Match", "affinity", { ge := some 0 }⟩] = false := by decide +kernel
 
 end SE.Proofs.C04
